@@ -3,9 +3,16 @@
     Only statements, each closed by [exact] of a lemma of [Service/Proofs*.v], with
     [Print Assumptions] beneath.  The model ([Service/Model.v]) follows the code AFTER the
     three [fix:] commits recorded in known-findings.txt (discounted charge, complete rewrite of
-    the owner tally, all-or-nothing deduction); on the unchanged code the first theorem below is
-    false (corpus/C07/discount-overcharge.jsonl). *)
-From Irismod Require Import Service.Model Service.Proofs Service.ProofsHist.
+    the owner tally, all-or-nothing deduction); on the unchanged code
+    [consumer_charged_sum_of_request_fees] is false (corpus/C07/discount-overcharge.jsonl).
+
+    NOT proved here (stated in notes/service.md): that the END BLOCKER preserves
+    "request escrow = fees of active requests + earned fees" over arbitrary histories; what is
+    proved is that every other step preserves it ([request_escrow_preserved_by_transactions]) and
+    the exact effect on the escrow of each end-block action (one batch issued, one request
+    expired).  The equation itself is evaluated on the implementation's observations after every
+    step of every generated history (Check.v, clause 2). *)
+From Irismod Require Import Service.Model Service.Proofs Service.ProofsHist Service.ProofsEscrow.
 
 (** Over EVERY history (any list of steps: messages of any kind and content, valid or not, block
     ends with expiry, slashing, refunds and new batches, rate changes, transfers, module
@@ -105,3 +112,69 @@ Theorem slash_amount :
     /\ (forall k, k <> (svc, prov) -> get k (binds s') = get k (binds s)).
 Proof. exact slash_amount_lemma. Qed.
 Print Assumptions slash_amount.
+
+(** Writing [liab d s] for (fees of the active requests in denom d) + (earned fees in denom d):
+    if the request escrow equals the liabilities in every denom, it still does after ANY step
+    other than a block end — any message of any content (responses, withdrawals, bindings,
+    calls, controls; accepted or rejected), rate change, transfer or module call.
+    [DepInv] holds in every reachable state ([reachable_states_satisfy_DepInv]). *)
+Theorem request_escrow_preserved_by_transactions :
+  forall c s st,
+    (match st with EndBlock _ => False | _ => True end) ->
+    DepInv s -> EscEq s -> EscEq (apply c s st).
+Proof. exact escrow_preserved_by_messages_lemma. Qed.
+Print Assumptions request_escrow_preserved_by_transactions.
+
+Theorem reachable_states_satisfy_DepInv :
+  forall c steps h0 t0 l0, bal l0 DEP BASE = 0 -> DepInv (run c (init h0 t0 l0) steps).
+Proof. exact DepInv_reachable. Qed.
+Print Assumptions reachable_states_satisfy_DepInv.
+
+(** ** the hypotheses are satisfiable, the conclusions are not vacuous: a history with a
+    time-discounted binding (price 100, half price until t = 2000), a second flat binding
+    (60), one call to both, one response, one expiry with slashing *)
+Definition ex_cfg := mkCfg 50000000000000000 300000000000000000 6 2 100 4 false 2.
+Definition ex_l0 : ledger := [((0, 0), 1000000); ((5, 0), 1000000)].
+Definition ex_hist : list step :=
+  [ Tx 11 (MDefine 0 0 true);
+    Tx 12 (MBind 0 2 0 1000 (0, 100, [(0, 2000, 500000000000000000)], []) 1 true 0);
+    Tx 13 (MBind 0 3 0 1000 (0, 60, [], []) 1 true 0);
+    Tx 14 (MCall 0 [2; 3] 5 true 0 100000 2 false 0 0);
+    EndBlock 5;
+    Tx 15 (MRespond ((14, 0), 1, 1, 0) 2 1);
+    EndBlock 5; EndBlock 5 ].
+
+Example c07_history_nonvacuous :
+  let s := run ex_cfg (init 1 1000 ex_l0) ex_hist in
+  bal ex_l0 DEP BASE = 0
+  /\ bal (led s) DEP BASE = 1700 /\ dep_sum (binds s) = 1700          (* 1000 + (1000 - 300 slashed) *)
+  /\ bal (led s) (5) BASE = 1000000 - 50                               (* charged 50 + 60, refunded 60 *)
+  /\ bal (led s) REQ BASE = 48 /\ liab BASE s = 48                     (* 50 - tax 2 *)
+  /\ bal (led s) TAX BASE = 302
+  /\ g_out s = [((14, 0, 1, 1, 0), 1); ((14, 0, 1, 1, 1), 2)].
+Proof. vm_compute. repeat split; reflexivity. Qed.
+
+Example c07_charge_hypotheses_satisfiable :
+  let s := run ex_cfg (init 1 1000 ex_l0) (firstn 4 ex_hist) in
+  exists x l,
+    get (14, 0) (ctxs s) = Some x /\ x_state x = 0 /\ filter_provs s x (x_provs x) = Some [2; 3]
+    /\ debit_all (led s) (x_cons x) (total_fees s x [2; 3]) = Some l /\ x_cons x <> REQ
+    /\ fees_in BASE (mk_requests s x (14, 0) (x_batch x + 1) 0 [2; 3]) = 110   (* 50 discounted + 60 *)
+    /\ b_pa (mkB 1000 0 100 [(0, 2000, 500000000000000000)] [] 1 true 0 0) = 100.
+Proof.
+  eexists. eexists. vm_compute. repeat split; try reflexivity. discriminate.
+Qed.
+
+Example c07_escrow_hypotheses_satisfiable :
+  let s := run ex_cfg (init 1 1000 ex_l0) (firstn 5 ex_hist) in
+  EscEq s /\ liab BASE s = 110 /\ DepInv s.
+Proof.
+  split; [|split].
+  - intros d. destruct (Z.eq_dec d 0) as [->|Hne]; [vm_compute; reflexivity|].
+    unfold liab. vm_compute -[Z.eqb]. destruct (0 =? d) eqn:E; [apply Z.eqb_eq in E; congruence|].
+    simpl. unfold bal. simpl.
+    repeat match goal with |- context [eq_dec ?a ?b] => destruct (eq_dec a b) as [E0|E0]; [inversion E0; congruence|] end.
+    reflexivity.
+  - vm_compute. reflexivity.
+  - apply (DepInv_reachable ex_cfg (firstn 5 ex_hist) 1 1000 ex_l0). reflexivity.
+Qed.
